@@ -332,6 +332,21 @@ def gen_cases(kind, seed, n):
     for i in range(n):
         big = (i % 25 == 24)
         spec, nodes, es, wmode = gen_graph(r, i + r.below(8) * (i >= 8), zero_ok=(kind == "c04"), big=big)
+        if i % 10 == 3 and not big:
+            # decrease-key gadget (weights up to 10): v is discovered over a heavy edge and improved later, and w's
+            # best route runs through v while w's direct edge lies between v's improved and stale distances - every
+            # entry point and option combination (the distance-only fast path in particular) must re-queue v
+            nm = r2.shuffle(POOL)[:5 + r2.below(2)]
+            s_, v_, a_, w_ = nm[:4]
+            es = [(s_, v_, 8 + r2.below(3), None), (s_, a_, 1, None), (a_, v_, 1 + r2.below(2), None),
+                  (s_, w_, 5 + r2.below(2), None), (v_, w_, 1, None)]
+            for _ in range(r2.below(4)):
+                x, y = r2.pick(nm), r2.pick(nm)
+                if x != y and (x, y) not in [(e[0], e[1]) for e in es] and (y, x) not in [(e[0], e[1]) for e in es]:
+                    es.append((x, y, 1 + r2.below(10), None))
+            nodes = [(x, None) for x in (nm if r2.below(2) else r2.shuffle(nm))]
+            spec = (spec[0], 0, 1, 2, 0, 1)
+            wmode = "real"
         wscale = 0
         if wmode != "nan":
             # weight variants, drawn from a separate stream (the base cases stay as they were): a dyadic
